@@ -4,7 +4,7 @@ import fnmatch
 import itertools
 import json
 from functools import partial
-from copy import deepcopy
+from copy import copy, deepcopy
 import types
 import typing as ty
 from enum import IntEnum
@@ -1733,6 +1733,8 @@ class Context:
                         raise ValueError(
                             f"Got type {type(result)} rather than a strax Chunk from the processor!"
                         )
+                    # Do not modify the chunk in place: savers may still hold it
+                    result = copy(result)
                     # Apply functions known to contexts if any.
                     result.data = self._apply_function(result.data, run_id, targets_list)
 
